@@ -315,6 +315,9 @@ def _vec_or_scalar(v, asarray):
 
 def oracle_grids(case, R):
     from pyyeti import nastran
+    if case.get("ids_range"):
+        a_, n_ = case["ids_range"]
+        case = dict(case, ids=list(range(a_, a_ + n_)))
     ids = case["ids"]
     n = len(ids)
     field = case.get("form") or "16.8f"
@@ -936,6 +939,28 @@ def table_short_cases():
     return table_cases(short=True)
 
 
+# card lists longer than any plausible internal block of the writers (1024 / 4096 lines)
+@st.composite
+def grid_long_cases(draw):
+    c = draw(grid_cases())
+    for k in ("cp", "cd", "ps", "seid"):
+        if isinstance(c.get(k), list):
+            c[k] = c[k][0]
+    c.pop("ps_array", None)
+    c["ids_range"] = [draw(st.sampled_from([1, 1001, 500000])), draw(st.sampled_from([1024, 1025, 2500, 4097, 5000]))]
+    c["ids"] = []
+    return c
+
+
+@st.composite
+def table_long_cases(draw):
+    c = draw(table_cases())
+    c["tables"] = c["tables"][:1]
+    c["tables"][0]["n"] = draw(st.sampled_from([2048, 2049, 4096, 4100, 5000, 8200, 9001]))
+    c["tables"][0].pop("scalar", None)
+    return c
+
+
 # ---- SET / SPOINT / CSUPER / EXTRN
 
 @st.composite
@@ -1043,6 +1068,8 @@ PARTS = [
     Part("grids", oracle_grids, strategy=grid_cases, quick=(2, 400), thorough=(16, 600)),
     Part("grids_ps_array", oracle_grids, strategy=grid_ps_array_cases, quick=(1, 40), thorough=(2, 250)),
     Part("tabled1", oracle_tabled1, strategy=table_cases, quick=(2, 400), thorough=(16, 600)),
+    Part("grids_long", oracle_grids, strategy=grid_long_cases, quick=(2, 6), thorough=(8, 20)),
+    Part("tabled1_long", oracle_tabled1, strategy=table_long_cases, quick=(2, 6), thorough=(8, 20)),
     Part("tabled1_short", oracle_tabled1, strategy=table_short_cases, quick=(1, 40), thorough=(2, 250)),
     Part("sets", oracle_sets, strategy=set_cases, quick=(2, 400), thorough=(16, 600)),
     Part("spoints", oracle_spoints, strategy=spoint_cases, quick=(1, 500), thorough=(8, 800)),
